@@ -304,10 +304,12 @@ inductive QOp where
   | add (v : Int) | pop | clear | front | peek (n : Int) | each (k : Nat) | len | isEmpty
 deriving Repr
 
+/-- the `pred` of `q.back` once `Add` has run `if q.back.pred == nil { q.back = q.list.cfirst() }` -/
+def Q.backPred (q : Q) : Nat := match q.back with | none => 0 | some p => p
+
 /-- `Queue.Add` -/
 def qadd (q : Q) (v : Int) : Q × Out :=
-  let b := match q.back with | none => 0 | some p => p
-  match add q.h b [v] with
+  match add q.h q.backPred [v] with
   | .ok (h', p') => ({ h := h', back := some p', size := q.size + 1 }, .unit)
   | .panic h' p' => ({ q with h := h', back := some p' }, .panicInvalid)
   | .hang => (q, .hang)
